@@ -80,3 +80,49 @@ func reasmTypeCases() []RCase {
 	}
 	return cases
 }
+
+// reasmLargeCases: sizes a generated history does not reach by chance — one event of several hundred records,
+// several hundred events buffered at once (the bound itself in the hundreds), a long run of single-record events.
+func reasmLargeCases() []RCase {
+	var out []RCase
+	for _, n := range []int{255, 256, 257, 1025} {
+		// one event of n records, closed by its EOE; a second event interleaved
+		c := RCase{Max: 4, TimeoutNs: int64(time.Hour), InWindow: true, Base: 100}
+		id := 0
+		for i := 0; i < n; i++ {
+			id++
+			c.Ops = append(c.Ops, ROp{K: "push", ID: id, Seq: 100, Typ: []uint16{tSYSCALL, tPATH, tCWD, tEXECVE}[i%4]})
+			if i%64 == 63 {
+				id++
+				c.Ops = append(c.Ops, ROp{K: "push", ID: id, Seq: 101, Typ: tPATH})
+			}
+		}
+		c.Ops = append(c.Ops, ROp{K: "push", ID: id + 1, Seq: 100, Typ: tEOE}, ROp{K: "close"})
+		out = append(out, c)
+	}
+	for _, n := range []int{255, 256, 257, 300} {
+		// n events buffered at once under a bound of n, then two more (overflow), then completions from the far end
+		c := RCase{Max: n, TimeoutNs: int64(time.Hour), InWindow: true, Base: 1000}
+		id := 0
+		for i := 0; i < n+2; i++ {
+			id++
+			c.Ops = append(c.Ops, ROp{K: "push", ID: id, Seq: 1000 + uint32(i), Typ: tSYSCALL})
+		}
+		for i := n + 1; i > n-3; i-- {
+			id++
+			c.Ops = append(c.Ops, ROp{K: "push", ID: id, Seq: 1000 + uint32(i), Typ: tEOE})
+		}
+		c.Ops = append(c.Ops, ROp{K: "maintain"}, ROp{K: "push", ID: id + 1, Seq: 1002, Typ: tEOE}, ROp{K: "close"})
+		out = append(out, c)
+	}
+	{
+		// 1100 single-record events with gaps, through a small buffer (counters, loss accounting over a long run)
+		c := RCase{Max: 3, TimeoutNs: int64(time.Hour), InWindow: true, Base: 5000}
+		for i := 0; i < 1100; i++ {
+			c.Ops = append(c.Ops, ROp{K: "push", ID: i + 1, Seq: 5000 + uint32(i+i/97), Typ: []uint16{tSYSCALL, 1112, tPATH}[i%3]})
+		}
+		c.Ops = append(c.Ops, ROp{K: "close"})
+		out = append(out, c)
+	}
+	return out
+}
